@@ -34,7 +34,7 @@ def either(*fs):
 # (profile, {tier: count}, options)
 PROPS = {
     "C01": dict(
-        profiles=[("general", dict(quick=120, thorough=3000), dict(comps=(0, 1, 2, 3, 4, 5), allow_panic=0.03)),
+        profiles=[("wide", dict(quick=30, thorough=800), {}), ("general", dict(quick=120, thorough=3000), dict(comps=(0, 1, 2, 3, 4, 5), allow_panic=0.03)),
                   ("storage", dict(quick=40, thorough=800), {}),
                   ("cascade", dict(quick=40, thorough=800), {}),
                   ("queries", dict(quick=20, thorough=300), {})],
@@ -62,7 +62,7 @@ PROPS = {
         nontrivial=lambda ops, impl: any(sum(1 for l in obs if l.startswith("t h ")) >= 3 for _, obs in impl),
     ),
     "C05": dict(
-        profiles=[("accept", dict(quick=60, thorough=2500), {})],
+        profiles=[("wide", dict(quick=10, thorough=300), dict(bases=("accept",))), ("accept", dict(quick=60, thorough=2500), {})],
         channels=["ret", "accept", "trace"],
         rule="history registers handlers with >= 2 component-accessing parameters and sees both an accepted and a rejected one",
         nontrivial=both(has(r"^ret ok"), has(r"^ret err:conflict")),
@@ -119,26 +119,26 @@ PROPS = {
         nontrivial=has(r"^panic user"),
     ),
     "C14": dict(
-        profiles=[("cascade", dict(quick=150, thorough=4000), {})],
+        profiles=[("wide", dict(quick=30, thorough=800), dict(bases=("cascade", "lifecycle"))), ("cascade", dict(quick=150, thorough=4000), {})],
         channels=["trace", "store", "reg", "ret"],
         rule="a component type that is present on entities and referenced by handlers is removed",
         nontrivial=both(has(r"^rmc"), has(r"^ret some")),
     ),
     "C15": dict(
-        profiles=[("cascade", dict(quick=150, thorough=4000), {}), ("graphs", dict(quick=50, thorough=1000), {}),
+        profiles=[("wide", dict(quick=40, thorough=1000), dict(bases=("cascade", "graphs", "priorities", "lifecycle"))), ("cascade", dict(quick=150, thorough=4000), {}), ("graphs", dict(quick=50, thorough=1000), {}),
                   ("priorities", dict(quick=100, thorough=3000), {}), ("lifecycle", dict(quick=80, thorough=2500), {})],
         channels=["trace", "reg", "ret"],
         rule="a handler or an event type with users is removed and events are delivered afterwards",
         nontrivial=both(has(r"^(rmh|rmev)"), has(r"^ret some")),
     ),
     "C16": dict(
-        profiles=[("cascade", dict(quick=150, thorough=4000), {}), ("lifecycle", dict(quick=60, thorough=2000), {})],
+        profiles=[("wide", dict(quick=30, thorough=800), dict(bases=("cascade", "lifecycle"))), ("cascade", dict(quick=150, thorough=4000), {}), ("lifecycle", dict(quick=60, thorough=2000), {})],
         channels=["ids", "reg", "trace", "ret"],
         rule="an item is registered again after removal (index reuse) or re-registered while present",
         nontrivial=either(has(r"^ret dup"), both(has(r"^(rmc|rmev|rmh)"), has(r"^(addc|addev|addh)"))),
     ),
     "C17": dict(
-        profiles=[("general", dict(quick=60, thorough=1500), dict(comps=(0, 1, 2, 3))), ("cascade", dict(quick=60, thorough=1500), {}),
+        profiles=[("wide", dict(quick=25, thorough=600), {}), ("general", dict(quick=60, thorough=1500), dict(comps=(0, 1, 2, 3))), ("cascade", dict(quick=60, thorough=1500), {}),
                   ("storage", dict(quick=30, thorough=500), {}), ("spawns", dict(quick=30, thorough=500), {}),
                   ("lifecycle", dict(quick=40, thorough=1000), {})],
         channels=["arch", "pend"], snap=True, inv=True,
